@@ -1,6 +1,7 @@
 import SE.Proofs.SafetyLoad
 import SE.Proofs.SafetyPipe
 import SE.Proofs.SafetyLoaded
+import SE.Proofs.HelpUniform
 import SE.Spec.FloatLaws
 /-
 C19 — A configuration that loads is safe to run; one that is invalid is rejected.
@@ -26,6 +27,12 @@ C19 — A configuration that loads is safe to run; one that is invalid is reject
     negative `max_age`, a `max_age` too small for the age buckets, an objective outside [0, 1]) are now
     rejected (`now_rejects_…`), as is every configuration of these four kinds (`rejects_unsorted_buckets`,
     `rejects_bad_summary_options` and their variants for the defaults).
+(d) *… and every scrape succeeds*: "safe to run" used to stop at "no panic" — a configuration that loads could
+    still give one metric name two help strings (two rules, or a reload), after which every scrape failed (the
+    former finding `help_mismatch` of SE/Props/C03.lean). The registry now keeps one help string per metric name,
+    so from an empty registry without pre-registered families `Gather` also returns no error after every history:
+    `loaded_config_scrape_succeeds` (the only failure left needs a family registered by another collector under
+    the same name: SE.Props.C03.preregistered_name_collision).
 -/
 namespace SE.Props.C19
 open SE
@@ -564,6 +571,27 @@ theorem loaded_config_never_panics_from_start (rxOk : Bytes → Bool) (db : List
   ((loaded_config_never_panics rxOk db dq raw cfg ha h
     { mapper := MState.fresh cfg, reg := { metrics := [], pre := pre } } rfl (vecs_safe_empty pre) rx).2.2.1 ops ho)
 
+/-- **A loaded configuration is safe to run, scrapes included.** From the start of the process — a freshly loaded
+    mapper, an empty registry, no family pre-registered under a statsd name (`pre := []`) — no history (event
+    batches, sweeps, clock changes, reloads among loaded configurations, in any order) ends in a panic, and after
+    every such history `Gather` neither panics nor returns an error: no two help strings for one family (the
+    registry's `helpFor`, `HelpUniform`), no `_sum/_count/_bucket` suffix collision (`SuffixFree`). Two rules that
+    map to one metric name with different help strings, or a reload that changes a help string, are harmless: the
+    first help string of the name stays. (The `gatherOk` part needs neither `LoaderAssumptions` nor `OpsLoaded`:
+    it holds for every configuration and every history, SE.Props.C03.scrape_succeeds_without_preregistered.) -/
+theorem loaded_config_scrape_succeeds (rxOk : Bytes → Bool) (db : List V) (dq : List (V × V)) (raw : RawConfig V)
+    (cfg : Config V) (ha : LoaderAssumptions raw) (h : load rxOk db dq raw = .ok cfg)
+    (rx : Rx) (ops : List (PipeOp V)) (ho : OpsLoaded ops) :
+    (∀ pn, runOps rx { mapper := MState.fresh cfg, reg := { metrics := [], pre := [] } } ops ≠ some (.error pn)) ∧
+    (∀ p', runOps rx { mapper := MState.fresh cfg, reg := { metrics := [], pre := [] } } ops = some (.ok p') →
+      p'.reg.gatherPanics = false ∧ p'.reg.gatherOk = true) := by
+  obtain ⟨h1, h2⟩ := loaded_config_never_panics_from_start rxOk db dq raw cfg ha h [] rx ops ho
+  refine ⟨h1, fun p' h' => ⟨h2 p' h', ?_⟩⟩
+  exact gatherOk_of_suffixFree_helpUniform
+    (SuffixFree_runOps rx ops (RegWF_empty []) (SuffixFree_empty []) h').2
+    (HelpUniform_runOps rx ops (RegWF_empty []) (HelpUniform_empty []) h').2
+    (by rw [pre_runOps rx ops h'])
+
 /-- with valid library defaults, the configuration without any setting is accepted (so the hypothesis
     `load … = .ok cfg` of the theorems above is satisfiable for every number type with such defaults) -/
 theorem empty_config_accepted (rxOk : Bytes → Bool) (db : List V) (dq : List (V × V)) (hs : LibraryDefaultsSane db dq) :
@@ -733,6 +761,36 @@ example : ∃ cfg, load (fun _ => true) db0 dq0 rawGood = .ok cfg ∧ ConfigSafe
     have : (load (fun _ => true) db0 dq0 rawGood).toBool = true := by with_unfolding_all decide
     rw [hl] at this; cases this
   | ok cfg => exact ⟨cfg, rfl, accepted_config_safe _ _ _ _ _ ha hl⟩
+
+/-- (d) is about something: two rules mapping `a` and `b` to the same metric `x` with the help strings "1" and "2" —
+    the configuration that used to break every later scrape — load, satisfy `LoaderAssumptions`, and
+    `loaded_config_scrape_succeeds` applies; the history `a:1|c`, `b:1|c|#k:v` runs to the end with both events
+    applied, so its conclusion speaks about a family with two vectors -/
+private def rawTwoHelps : RawConfig Int :=
+  { rules := [{ matchStr := [97], name := [120], help := [49] }, { matchStr := [98], name := [120], help := [50] }] }
+
+example : ∃ cfg, load (fun _ => true) db0 dq0 rawTwoHelps = .ok cfg ∧
+    ∀ ops, OpsLoaded ops → ∀ p', runOps noRx { mapper := MState.fresh cfg, reg := { metrics := [], pre := [] } } ops = some (.ok p') →
+      p'.reg.gatherPanics = false ∧ p'.reg.gatherOk = true := by
+  have ha : LoaderAssumptions rawTwoHelps :=
+    ⟨toy_objectiveLaw, by decide, fun r hr => by
+      have e : r = { matchStr := [97], name := [120], help := [49] } ∨ r = { matchStr := [98], name := [120], help := [50] } := by
+        simpa [rawTwoHelps] using hr
+      rcases e with e | e <;> subst e <;> decide⟩
+  cases hl : load (fun _ => true) db0 dq0 rawTwoHelps with
+  | error e =>
+    have : (load (fun _ => true) db0 dq0 rawTwoHelps).toBool = true := by with_unfolding_all decide
+    rw [hl] at this; cases this
+  | ok cfg => exact ⟨cfg, rfl, fun ops ho => (loaded_config_scrape_succeeds _ _ _ _ _ ha hl noRx ops ho).2⟩
+
+example : (match load (fun _ => true) db0 dq0 rawTwoHelps with
+    | .ok cfg =>
+      (match runOps noRx { mapper := MState.fresh cfg, reg := { metrics := [], pre := [] } }
+          [.line [] [{ kind := .counter, name := [97], value := 1, relative := false }],
+           .line [([107], [118])] [{ kind := .counter, name := [98], value := 1, relative := false }]] with
+        | some (.ok p') => (p'.counts.applied, p'.reg.metrics.map fun m => m.vecs.map (·.help), p'.reg.gatherOk)
+        | _ => (0, [], false))
+    | .error _ => (0, [], false)) = (2, [[[49], [49]]], true) := by with_unfolding_all decide
 
 /-- a summary-typed configuration with its own quantiles, `max_age` and `age_buckets` that is accepted -/
 private def rawGoodSummary : RawConfig Int :=
